@@ -281,6 +281,6 @@ if bad:
     print('names', names, 'query', repr(q), 'determine_namespace', dn)
     print('reference:', exp)
     for o, g in bad[:3]: print('  order', o, '->', g)
-    sys.exit(1)
+    sys.exit(3)
 print('reference and implementation agree:', exp)
 '''
